@@ -21,7 +21,7 @@ import (
 // variable that no injector uses and that is ill-formed.
 func genC19() *rapid.Generator[*Spec] {
 	return rapid.Custom(func(t *rapid.T) *Spec {
-		switch rapid.SampledFrom([]string{"wf", "wf", "c05", "c06", "c08", "c09", "c09", "c11", "badset", "badset", "badset", "chain", "chain", "injshape"}).Draw(t, "family") {
+		switch rapid.SampledFrom([]string{"wf", "wf", "wf", "wf", "c05", "c06", "c08", "c09", "c09", "c11", "badset", "badset", "badset", "chain", "chain", "injshape"}).Draw(t, "family") {
 		case "injshape":
 			// an injector template with an unusual result list (none at all, two
 			// values, error first, ...): gen refuses it, check must too
